@@ -130,6 +130,15 @@ class _Normalise(ast.NodeTransformer):
 
     def visit_Call(self, node):
         self.generic_visit(node)
+        # f(a, *(b, c)) with a literal sequence is f(a, b, c)
+        if any(isinstance(a, ast.Starred) and isinstance(a.value, (ast.Tuple, ast.List)) for a in node.args):
+            args = []
+            for a in node.args:
+                if isinstance(a, ast.Starred) and isinstance(a.value, (ast.Tuple, ast.List)) and not any(isinstance(x, ast.Starred) for x in a.value.elts):
+                    args += a.value.elts
+                else:
+                    args.append(a)
+            node.args = args
         f = node.func
         # re.compile(P[, flags]).match(s) is re.match(P, s[, flags]) (a pre-compiled pattern and the module-level call are one form)
         if isinstance(f, ast.Attribute) and f.attr in ("match", "fullmatch", "search", "sub", "subn", "findall", "finditer", "split") and isinstance(f.value, ast.Call) \
